@@ -4,7 +4,6 @@ import (
 	"go/ast"
 	"go/token"
 	"go/types"
-	"strings"
 
 	"verifcheck/core"
 )
@@ -21,6 +20,19 @@ func runC19(c *Ctx) {
 	info := f.Info()
 	g := c.G(f)
 	msgs := paramAt(f, 4)
+	// the returned image list: the named result of type []llm.ImageData
+	var imagesObj types.Object
+	if f.Type.Results != nil {
+		for _, fl := range f.Type.Results.List {
+			for _, nm := range fl.Names {
+				if o := info.Defs[nm]; o != nil {
+					if sl, ok := o.Type().Underlying().(*types.Slice); ok && core.ObjNameOfType(sl.Elem()) == "llm.ImageData" {
+						imagesObj = o
+					}
+				}
+			}
+		}
+	}
 
 	// ------------------------------------------------------------------ R1
 	c.Rule("C19-R1", "same index basis: for every Template.Execute in chatPrompt the rendered messages are append(system, msgs[K:]...) where `system` was reset and collected by the nearest dominating loop over exactly the indices below that same K (system messages that precede the retained slice — not fewer, which drops them, and not more, which renders a system message inside the slice twice and overcounts tokens)")
@@ -41,8 +53,7 @@ func runC19(c *Ctx) {
 		core.InspectShallow(rl.Stmt.Body, func(n ast.Node) bool {
 			switch x := n.(type) {
 			case *ast.IfStmt:
-				s := core.ExprString(x.Cond)
-				if strings.Contains(s, ".Role == \"system\"") && msgs != nil && core.UsesObj(info, x.Cond, msgs) {
+				if isRoleSystemTest(info, x.Cond) && msgs != nil && core.UsesObj(info, x.Cond, msgs) {
 					roleOK = true
 				}
 			case *ast.AssignStmt:
@@ -138,7 +149,16 @@ func runC19(c *Ctx) {
 	var nObj types.Object
 	for _, h := range g.Find(func(n ast.Node) bool {
 		a, ok := n.(*ast.AssignStmt)
-		return ok && a.Tok == token.DEFINE && len(a.Lhs) == 1 && core.ExprString(a.Rhs[0]) == "len(msgs) - 1"
+		if !ok || a.Tok != token.DEFINE || len(a.Lhs) != 1 || len(a.Rhs) != 1 {
+			return false
+		}
+		be, isB := ast.Unparen(a.Rhs[0]).(*ast.BinaryExpr)
+		if !isB || be.Op != token.SUB {
+			return false
+		}
+		p, isLen := isLenOf(info, be.X)
+		v, isC := core.ConstInt(info, be.Y)
+		return isLen && isC && v == 1 && msgs != nil && p.Root == msgs && len(p.Fields) == 0
 	}) {
 		nObj = info.Defs[h.Node.(*ast.AssignStmt).Lhs[0].(*ast.Ident)]
 	}
@@ -159,7 +179,14 @@ func runC19(c *Ctx) {
 			c.Undecided("C19-R2", "anchor:backwards loop", "-", "anchor lost")
 		} else {
 			iObj := info.Defs[loop.Init.(*ast.AssignStmt).Lhs[0].(*ast.Ident)]
-			okDir := core.ExprString(loop.Cond) == core.ExprString(loop.Init.(*ast.AssignStmt).Lhs[0])+" >= 0"
+			okDir := false
+			if cmp, isB := ast.Unparen(loop.Cond).(*ast.BinaryExpr); isB {
+				if _, y, op, okO := core.Orient(cmp, func(e ast.Expr) bool { return isIdentOf(info, e, iObj) }); okO && op == token.GEQ {
+					if v, isC := core.ConstInt(info, y); isC && v == 0 {
+						okDir = true
+					}
+				}
+			}
 			if ids, ok := loop.Post.(*ast.IncDecStmt); !ok || ids.Tok != token.DEC {
 				okDir = false
 			}
@@ -171,7 +198,7 @@ func runC19(c *Ctx) {
 				return ok && b.Tok == token.CONTINUE && within(loop, b)
 			}) {
 				for _, a := range g.AtomsAt(br.Loc) {
-					if be, ok := ast.Unparen(a.Expr).(*ast.BinaryExpr); ok && be.Op == token.EQL && a.Val && core.UsesObj(info, be.X, iObj) && core.UsesObj(info, be.Y, nObj) {
+					if be, ok := ast.Unparen(a.Expr).(*ast.BinaryExpr); ok && be.Op == token.EQL && a.Val && ((core.UsesObj(info, be.X, iObj) && core.UsesObj(info, be.Y, nObj)) || (core.UsesObj(info, be.Y, iObj) && core.UsesObj(info, be.X, nObj))) {
 						skip = br.Loc
 					}
 				}
@@ -183,7 +210,7 @@ func runC19(c *Ctx) {
 						// the render is on the false edge of i == n
 						on := false
 						for _, a := range g.AtomsAt(ex.Loc) {
-							if be, ok := ast.Unparen(a.Expr).(*ast.BinaryExpr); ok && be.Op == token.EQL && !a.Val && core.UsesObj(info, be.X, iObj) && core.UsesObj(info, be.Y, nObj) {
+							if be, ok := ast.Unparen(a.Expr).(*ast.BinaryExpr); ok && be.Op == token.EQL && !a.Val && ((core.UsesObj(info, be.X, iObj) && core.UsesObj(info, be.Y, nObj)) || (core.UsesObj(info, be.Y, iObj) && core.UsesObj(info, be.X, nObj))) {
 								on = true
 							}
 						}
@@ -202,7 +229,7 @@ func runC19(c *Ctx) {
 				}
 				okFit := false
 				for _, at := range g.AtomsAt(as.Loc) {
-					if be, isB := ast.Unparen(at.Expr).(*ast.BinaryExpr); isB && be.Op == token.GTR && !at.Val && strings.Contains(core.ExprString(be.Y), "NumCtx") {
+					if ex, known := exceedsContext(at.Expr); known && ex != at.Val {
 						okFit = true
 					}
 				}
@@ -215,7 +242,7 @@ func runC19(c *Ctx) {
 				return ok && b.Tok == token.BREAK && within(loop, b) && core.BranchTarget(f.Body, b) == ast.Stmt(loop)
 			}) {
 				for _, at := range g.AtomsAt(br.Loc) {
-					if be, isB := ast.Unparen(at.Expr).(*ast.BinaryExpr); isB && be.Op == token.GTR && at.Val && strings.Contains(core.ExprString(be.Y), "NumCtx") {
+					if ex, known := exceedsContext(at.Expr); known && ex == at.Val {
 						okBreak = true
 					}
 				}
@@ -246,8 +273,10 @@ func runC19(c *Ctx) {
 		okID := false
 		for _, e := range cl.Elts {
 			kv := e.(*ast.KeyValueExpr)
-			if kv.Key.(*ast.Ident).Name == "ID" && core.ExprString(kv.Value) == "len(images)" {
-				okID = true
+			if kv.Key.(*ast.Ident).Name == "ID" {
+				if p, isLen := isLenOf(info, kv.Value); isLen && imagesObj != nil && p.Root == imagesObj && len(p.Fields) == 0 {
+					okID = true
+				}
 			}
 		}
 		c.Check("C19-R3", f.Key()+" ImageData literal ID = len(images)", c.Pos(cl), okID, "the image id must be its index in the returned list")
@@ -261,7 +290,7 @@ func runC19(c *Ctx) {
 		_, exits := g.CountPathsIn(core.Loc{B: start.B, I: start.I - 1}, func(n ast.Node) int {
 			k := 0
 			core.InspectShallow(n, func(x ast.Node) bool {
-				if a, ok := x.(*ast.AssignStmt); ok && len(a.Lhs) == 1 && core.ExprString(a.Lhs[0]) == "images" && len(core.CallsTo(info, a.Rhs[0], false, "builtin.append")) == 1 {
+				if a, ok := x.(*ast.AssignStmt); ok && len(a.Lhs) == 1 && imagesObj != nil && isIdentOf(info, a.Lhs[0], imagesObj) && len(core.CallsTo(info, a.Rhs[0], false, "builtin.append")) == 1 {
 					k++
 				}
 				return true
@@ -337,4 +366,34 @@ func runC19(c *Ctx) {
 		}
 	}
 	c.Check("C19-R3", f.Key()+" images taken only from the retained messages", c.Pos(imgLoop), okOuter, "the image loop must run over msgs[K:] for the same K the final render uses")
+}
+
+// isRoleSystemTest: <x>.Role == "system".
+func isRoleSystemTest(info *types.Info, e ast.Expr) bool {
+	be, ok := ast.Unparen(e).(*ast.BinaryExpr)
+	if !ok || be.Op != token.EQL || selName(be.X) != "Role" {
+		return false
+	}
+	v, isS := core.ConstString(info, be.Y)
+	return isS && v == "system"
+}
+
+// exceedsContext recognises `<length> > <…NumCtx>` in either operand order; the result is
+// the truth value of "exceeds" that the expression being true stands for.
+func exceedsContext(e ast.Expr) (exceeds, known bool) {
+	be, ok := ast.Unparen(e).(*ast.BinaryExpr)
+	if !ok {
+		return false, false
+	}
+	_, y, op, okO := core.Orient(be, func(x ast.Expr) bool { return !mentionsSel(x, "NumCtx") })
+	if !okO || !mentionsSel(y, "NumCtx") {
+		return false, false
+	}
+	switch op {
+	case token.GTR:
+		return true, true
+	case token.LEQ:
+		return false, true
+	}
+	return false, false
 }
